@@ -374,6 +374,152 @@ fn cli_term(c: &CliObs) -> String {
     }
 }
 
+// ---------- price DB legs ----------
+
+/// one `P DATE X RATE Y` line; x / y index COMMODITIES; `ax` / `ay`: which declared alias (0 / 1
+/// of COM_ALIAS) the alias-spelled DB writes instead of the canonical name (None = canonical)
+#[derive(Clone, Debug, PartialEq, Serialize, Deserialize)]
+struct PLine {
+    date: i32,
+    x: usize,
+    m: i64,
+    scale: u32,
+    y: usize,
+    ax: Option<usize>,
+    ay: Option<usize>,
+}
+
+/// a price DB in two spellings (canonical names / aliases the ledger declares), the target of
+/// `-X`, the `--now` / `--date` day and the expression of `primitive eval`
+#[derive(Clone, Debug, PartialEq, Serialize, Deserialize)]
+struct Pdb {
+    lines: Vec<PLine>,
+    target: usize,
+    now: i32,
+    eval_m: i64,
+    eval_c: usize,
+}
+
+impl Pdb {
+    fn aliases_written(&self) -> usize {
+        self.lines.iter().map(|l| l.ax.is_some() as usize + l.ay.is_some() as usize).sum()
+    }
+    fn text(&self, alias: bool) -> String {
+        let mut s = String::new();
+        for l in &self.lines {
+            let name = |c: usize, a: Option<usize>| match a {
+                Some(k) if alias => COM_ALIAS[c][k],
+                _ => COMMODITIES[c],
+            };
+            writeln!(s, "P {} {} {} {}", date_text(l.date), name(l.x, l.ax), num_text(l.m, l.scale, false), name(l.y, l.ay)).unwrap();
+        }
+        s
+    }
+}
+
+/// aliases (index into COM_ALIAS[c]) that the ledger declares for commodity c, anywhere
+fn declared_commodity_aliases(es: &[NE], ns: &Ns) -> Vec<Vec<usize>> {
+    let mut out = vec![Vec::new(); COMMODITIES.len()];
+    for e in es {
+        if let NE::Commodity { name, aliases, .. } = e {
+            for c in 0..COMMODITIES.len() {
+                if ns.com_canon(c) == *name {
+                    for k in 0..2 {
+                        if aliases.contains(&ns.com_alias(c, k)) && !out[c].contains(&k) {
+                            out[c].push(k);
+                        }
+                    }
+                }
+            }
+        }
+    }
+    out
+}
+
+fn gen_pdb(r: &mut Rng, es: &[NE], ns: &Ns) -> Pdb {
+    let decl = declared_commodity_aliases(es, ns);
+    let with_alias: Vec<usize> = (0..COMMODITIES.len()).filter(|c| !decl[*c].is_empty()).collect();
+    let dates: Vec<i32> = es.iter().filter_map(|e| if let NE::Txn(t) = e { Some(t.date) } else { None }).collect();
+    let lo = dates.iter().copied().min().unwrap_or(100);
+    let hi = dates.iter().copied().max().unwrap_or(100);
+    let pick_comm = |r: &mut Rng| -> usize {
+        if !with_alias.is_empty() && r.chance(3, 4) {
+            *r.pick(&with_alias)
+        } else {
+            r.below(COMMODITIES.len() as u64) as usize
+        }
+    };
+    let n = 1 + r.below(4) as usize;
+    let mut lines = Vec::new();
+    for _ in 0..n {
+        let x = pick_comm(r);
+        let mut y = pick_comm(r);
+        if y == x {
+            y = (x + 1 + r.below(COMMODITIES.len() as u64 - 1) as usize) % COMMODITIES.len();
+        }
+        let spell = |r: &mut Rng, c: usize| if !decl[c].is_empty() && r.chance(2, 3) { Some(*r.pick(&decl[c])) } else { None };
+        let ax = spell(r, x);
+        let ay = spell(r, y);
+        let scale = *r.pick(&[0u32, 0, 1, 2, 3]);
+        lines.push(PLine { date: lo - 3 + r.below((hi - lo + 8) as u64) as i32, x, m: 1 + r.below(30000) as i64, scale, y, ax, ay });
+    }
+    let target = if r.chance(4, 5) { lines[r.below(lines.len() as u64) as usize].y } else { r.below(COMMODITIES.len() as u64) as usize };
+    let eval_c = if r.chance(4, 5) { lines[r.below(lines.len() as u64) as usize].x } else { r.below(COMMODITIES.len() as u64) as usize };
+    Pdb { lines, target, now: hi + r.below(40) as i32, eval_m: 1 + r.below(5000) as i64, eval_c }
+}
+
+/// what `okane balance LEDGER -X T --now D --price-db DB` and `okane primitive eval --date D -X T
+/// --price-db DB -f LEDGER EXPR` showed.  kind: 0 printed, 1 stopped in the ledger (load or
+/// book-keeping), 2 stopped loading the price DB, 3 stopped in the query / evaluation, 9 panic
+#[derive(Clone, Debug, PartialEq)]
+struct PdbObs {
+    kind: u8,
+    bal: Vec<(usize, AmountObs)>,
+    ekind: u8,
+    eval: AmountObs,
+    text: String,
+}
+
+fn stop_kind(r: &cli::CliResult) -> u8 {
+    if r.panicked {
+        9
+    } else if r.ok {
+        0
+    } else if r.stderr.contains("failed to load the Price DB") {
+        2
+    } else if r.stderr.starts_with("failed to report") {
+        1
+    } else {
+        3
+    }
+}
+
+fn iso_date(d: i32) -> String {
+    date_text(d).replace('/', "-")
+}
+
+fn run_pdb(ledger: &str, db: &str, p: &Pdb, ns: &Ns) -> PdbObs {
+    let now = iso_date(p.now);
+    let b = cli::run(&["balance", ledger, "-X", COMMODITIES[p.target], "--now", &now, "--price-db", db]);
+    let mut bal = Vec::new();
+    if b.ok {
+        for l in b.stdout.lines() {
+            if let Some((a, amt)) = l.split_once(": ") {
+                bal.push((comm_id(a, &ns.acc), parse_inline(amt, &ns.com)));
+            }
+        }
+    }
+    let expr = format!("{} {}", p.eval_m, COMMODITIES[p.eval_c]);
+    let e = cli::run(&["primitive", "eval", "--date", &now, "-X", COMMODITIES[p.target], "--price-db", db, "-f", ledger, &expr]);
+    let eval = if e.ok { parse_inline(e.stdout.trim(), &ns.com) } else { AmountObs::new() };
+    let text = format!("balance -X: {}\neval: {}", if b.ok { b.stdout.clone() } else { b.stderr.clone() }, if e.ok { e.stdout.clone() } else { e.stderr.clone() });
+    PdbObs { kind: stop_kind(&b), bal, ekind: stop_kind(&e), eval, text }
+}
+
+fn pdb_term(o: &PdbObs) -> String {
+    format!("(PO {} {} {} {})", o.kind, coq::list(o.bal.iter().map(|(a, am)| format!("({}, {})", a, amount_term(am)))), o.ekind, amount_term(&o.eval))
+}
+
 // ---------- generation ----------
 
 fn map_ve(v: &VE, f: &mut dyn FnMut(usize) -> usize) -> VE {
@@ -684,11 +830,30 @@ fn run_both(es: &[NE], ns: &Ns, names: &Names, scratch: &cli::Scratch, file: &st
     Run { obs, cli, text: r.text }
 }
 
-fn emit(sh: &mut Shards, st: &mut Stats, a: &[NE], b: &[NE], nsub: usize, kind: &str, ns: &Ns, names: &Names, scratch: &cli::Scratch) {
+fn emit(sh: &mut Shards, st: &mut Stats, a: &[NE], b: &[NE], nsub: usize, kind: &str, ns: &Ns, names: &Names, scratch: &cli::Scratch, pdb: Option<&Pdb>) {
     let ra = run_both(a, ns, names, scratch, "a.ledger");
+    // the first ledger with a price DB spelled with canonical names / with the aliases it declares
+    let pdb_obs = pdb.map(|p| {
+        let ledger = scratch.dir.join("a.ledger").to_string_lossy().into_owned();
+        let dc = scratch.write("canonical.pricedb", &p.text(false));
+        let da = scratch.write("alias.pricedb", &p.text(true));
+        (run_pdb(&ledger, &dc.to_string_lossy(), p, ns), run_pdb(&ledger, &da.to_string_lossy(), p, ns))
+    });
     let rb = if a == b { Run { obs: ra.obs.clone(), cli: ra.cli.clone(), text: ra.text.clone() } } else { run_both(b, ns, names, scratch, "b.ledger") };
     let conflict_reported = matches!(&ra.obs, Obs::Err { err: ErrObs::InvalidAccount(_) | ErrObs::InvalidCommodity(_), .. });
     let nontrivial = nsub >= 1 || conflict_reported;
+    if let (Some(p), Some((oc, oa))) = (pdb, &pdb_obs) {
+        st.count("stream:price-db pair (canonical / alias spelling of the P lines)");
+        st.count(&format!("price-db:aliases written in the alias-spelled DB:{}", p.aliases_written().min(4)));
+        st.count(&format!("price-db:balance -X (canonical spelling):{}", ["printed", "stopped in the ledger", "stopped loading the price DB", "stopped in the query", "", "", "", "", "", "panic"][oc.kind as usize]));
+        st.count(&format!("price-db:primitive eval -X (canonical spelling):{}", ["printed", "stopped in the ledger", "stopped loading the price DB", "stopped in the evaluation", "", "", "", "", "", "panic"][oc.ekind as usize]));
+        if oc.kind == 0 && oc.bal.iter().any(|(_, am)| am.keys().any(|c| *c == ns.com_canon(p.target))) && p.aliases_written() > 0 {
+            st.count("price-db:converted report printed with an alias-spelled DB line");
+        }
+        if pdb_term(oc) != pdb_term(oa) {
+            st.count("impl:price_db_pair_differs");
+        }
+    }
     st.eval(&(ra.text.clone(), rb.text.clone()), nontrivial);
     st.count(&format!("kind:{}", kind));
     st.count(&format!("a:{}", obs_kind(&ra.obs)));
@@ -725,18 +890,28 @@ fn emit(sh: &mut Shards, st: &mut Stats, a: &[NE], b: &[NE], nsub: usize, kind: 
         "impl": {"a": obs_json_n(&ra.obs, ns), "b": obs_json_n(&rb.obs, ns),
                  "cli_a": cli_json(&ra.cli), "cli_b": cli_json(&rb.cli)},
         "entries_a": serde_json::to_value(a).unwrap(), "entries_b": serde_json::to_value(b).unwrap(),
-        "reproduce": "write each ledger to a file and compare: okane balance <file>; okane register <file>"});
+        "pdb": pdb.map(|p| serde_json::to_value(p).unwrap()),
+        "price_db": pdb.map(|p| json!({"canonical_spelling": p.text(false), "alias_spelling": p.text(true),
+            "balance_args": format!("-X {} --now {} --price-db DB", COMMODITIES[p.target], iso_date(p.now)),
+            "eval_args": format!("primitive eval --date {} -X {} --price-db DB -f LEDGER '{} {}'", iso_date(p.now), COMMODITIES[p.target], p.eval_m, COMMODITIES[p.eval_c]),
+            "impl_canonical": pdb_obs.as_ref().map(|o| o.0.text.clone()), "impl_alias": pdb_obs.as_ref().map(|o| o.1.text.clone())})),
+        "reproduce": "write each ledger to a file and compare: okane balance <file>; okane register <file>; with price_db: write `ledger` and both spellings of the DB to files and compare okane balance LEDGER <balance_args> and okane <eval_args>"});
     if st.samples.len() < 2 || (st.samples.len() < 5 && (conflict_reported == (st.samples.len() % 2 == 0)) && nontrivial) {
         st.sample(rep.clone(), 5);
     }
     let term = format!(
-        "C {} {} {} {} {} {}",
+        "{} {} {} {} {} {} {}{}",
+        if pdb_obs.is_some() { "CP" } else { "C" },
         coq::list(a.iter().map(ne_term)),
         coq::list(b.iter().map(ne_term)),
         obs_term(&ra.obs),
         obs_term(&rb.obs),
         cli_term(&ra.cli),
-        cli_term(&rb.cli)
+        cli_term(&rb.cli),
+        match &pdb_obs {
+            Some((oc, oa)) => format!(" {} {}", pdb_term(oc), pdb_term(oa)),
+            None => String::new(),
+        }
     );
     sh.push(term, vec![rep]);
 }
@@ -761,7 +936,7 @@ pub fn run(o: &Opts) {
     let header = "From Coq Require Import List NArith ZArith QArith Qcanon.\nFrom Okv Require Import Base.Maps Base.Dec Model.Amount Model.Book Model.Intern Model.Named Run.LedgerCase Run.Classify_C12.\nImport ListNotations.\nOpen Scope N_scope.";
     let mut sh = Shards::new(&o.out, o.shards, header);
     let mut st = Stats::new();
-    st.rule = "ledgers of the C01 generator with `account` / `commodity` declarations carrying 1-2 aliases placed before, between and after the uses, their blocks written with note / comment / format sub-lines (and, in conflict cases, harmless alias lines) before, between and after the alias lines in every order; each ledger is run a second time with declared aliases written at random later occurrences (accounts of postings; commodities in amounts, costs, lot prices, assertions) and both observations form one case; conflict cases plant one conflicting declaration (alias already canonical by declaration / by earlier use / the alias name itself used earlier; canonical already an alias; one alias for two canonicals; alias of itself); observed: Ledger::transactions + Ledger::balance through report::process on a FakeFileSystem, and the parsed stdout of `okane balance` / `okane register` on a real file; non-trivial = at least one substituted occurrence, or a reported declaration conflict; distinct by the pair of ledger texts".into();
+    st.rule = "ledgers of the C01 generator with `account` / `commodity` declarations carrying 1-2 aliases placed before, between and after the uses, their blocks written with note / comment / format sub-lines (and, in conflict cases, harmless alias lines) before, between and after the alias lines in every order; each ledger is run a second time with declared aliases written at random later occurrences (accounts of postings; commodities in amounts, costs, lot prices, assertions) and both observations form one case; conflict cases plant one conflicting declaration (alias already canonical by declaration / by earlier use / the alias name itself used earlier; canonical already an alias; one alias for two canonicals; alias of itself); observed: Ledger::transactions + Ledger::balance through report::process on a FakeFileSystem, and the parsed stdout of `okane balance` / `okane register` on a real file; a third of the pairs and half of the conflict ledgers are also read with a price DB (1-4 `P` lines over the ledger's dates, mostly about commodities the ledger declares aliases for) written once with canonical names and once with declared aliases (2/3 of the occurrences): `okane balance LEDGER -X T --now D --price-db DB` and `okane primitive eval --date D -X T --price-db DB -f LEDGER 'N C'` must print the same converted report, alias-free, or stop in the same stage, and may stop in the ledger only if the ledger read without a price DB is refused; non-trivial = at least one substituted occurrence, or a reported declaration conflict; distinct by the pair of ledger texts".into();
     st.assumptions.push("same numeric ranges as C01 (exact Decimal arithmetic)".into());
     let ns = Ns::new();
     let names = Names { accounts: ns.acc.clone(), commodities: ns.com.clone() };
@@ -786,7 +961,8 @@ pub fn run(o: &Opts) {
                 let b = v.get("entries_b").and_then(|e| serde_json::from_value::<Vec<NE>>(e.clone()).ok());
                 if let (Some(a), Some(b)) = (a, b) {
                     let nsub = v.get("substituted").and_then(|x| x.as_u64()).unwrap_or(0) as usize;
-                    emit(&mut sh, &mut st, &a, &b, nsub, "corpus", &ns, &names, &scratch);
+                    let pdb = v.get("pdb").and_then(|e| serde_json::from_value::<Pdb>(e.clone()).ok());
+                    emit(&mut sh, &mut st, &a, &b, nsub, "corpus", &ns, &names, &scratch, pdb.as_ref());
                 }
             }
         }
@@ -812,11 +988,16 @@ pub fn run(o: &Opts) {
                         Some(false) => st.count("conflict_block:refused_alias_line_is_last"),
                         None => st.count("conflict_block:the_declaration_itself_is_refused"),
                     }
-                    emit(&mut sh, &mut st, &c, &c, 0, kind, &ns, &names, &scratch);
+                    // half of the conflict ledgers also with a price DB: the same error in both spellings
+                    let pdb = if k % 8 == 7 { Some(gen_pdb(&mut r, &c, &ns)) } else { None };
+                    emit(&mut sh, &mut st, &c, &c, 0, kind, &ns, &names, &scratch, pdb.as_ref());
                 }
             } else {
                 let (b, nsub) = substitute(&a, &mut r, 1, 2);
-                emit(&mut sh, &mut st, &a, &b, nsub, "pair", &ns, &names, &scratch);
+                // a third of the pairs: the first ledger is also read with `--price-db`, the DB
+                // spelled once with canonical names and once with aliases the ledger declares
+                let pdb = if k % 4 == 1 { Some(gen_pdb(&mut r, &a, &ns)) } else { None };
+                emit(&mut sh, &mut st, &a, &b, nsub, "pair", &ns, &names, &scratch, pdb.as_ref());
             }
         }
     }
